@@ -224,3 +224,16 @@ CHECKS["C14"] = {
     "assumptions": ["a marker dataset visible on a node implies every earlier catalogue entry was applied there"],
     "min": {"any": {"catalogues_compared": 20}},
 }
+
+CHECKS["C05"] = {
+    "pkg": "./c05", "run": "^TestC05$", "level": "fault_enumeration",
+    "mem_gb": {"quick": 0, "thorough": 0},
+    "technique": "online trace monitors (apply agreement, in-order apply, durable-before-send, restart monotonicity, one leader per term, no fatal, bounded convergence) over every raft message (SimNet shim), every durable write (WAL wrapper) and every applied entry of in-process real servers under seeded loss/delay/duplication/partition/crash-restart schedules",
+    "level_text": "Real servers in one process with all raft traffic routed through a recording network shim and all log stores wrapped: seeded schedules of 6-10 phases (drop 0-30%, duplication, delays up to 80 ms against 50-100 ms election timeouts, minority and one-way partitions, immediate crashes and crashes armed at the k-th durable write, restarts) run against groups of 1, 3 and 5 replicas plus the zero group while 5 sequential clients write. Seven monitors judge every message against the sender's durable view at the instant it leaves, every applied entry, every Save and every restart; after faults stop all replicas must converge within 600 election timeouts of virtual ticks and hold exactly the acknowledged history.",
+    "level_note": "etcd/raft itself is trusted; schedules are sampled (only the crash boundary index is a systematic dimension); goroutine scheduling is not replayable, the witness is the recorded event tail.",
+    "shards": {"quick": 8, "thorough": 16},
+    "timeout": {"quick": 900, "thorough": 3400},
+    "rule": "case c = group size (1,3,5) + seeded fault script; non-trivial = more than 200 raft messages checked; distinct = digest of (topology, script)",
+    "assumptions": ["the sender's durable view is read on the sender's goroutine when the message leaves", "a crash ends the node's ready-loops at an event boundary; nothing is persisted afterwards"],
+    "min": {"any": {"raft_messages_checked": 5000, "restarts": 3, "replica_contents_checked": 10}},
+}
